@@ -387,6 +387,53 @@ def shrink (m : Mode) (keep : List Bool) (x : List β) : List β :=
   | .ref => x
   | .impl => compress keep x
 
+/-! ## `distribute_toplayer` (GRID section, keywords with `top = true`: PORO, PERMX/Y/Z) -/
+
+section Top
+variable {α : Type} [Scalar α]
+
+/-- what `distribute_toplayer` does to one cell given the top-layer value of its column -/
+def topCell (tv : Option α) (c : Cell α) : Cell α :=
+  if c.st = .uninit then
+    match tv with
+    | some v => ⟨.validDefault, v⟩
+    | none => c
+  else c
+
+/-- implementation: the scratch `toplayer` array, filled from the ACTIVE cells of the box that lie
+in layer k = 0 (every entry, whatever its deck status), read by layer index -/
+def topValueImpl (L : List Idx) (deck : Arr α) (li : Nat) : Option α :=
+  match L.find? (fun e => e.g == li) with
+  | some e => some (cellAt deck e.d).v
+  | none => none
+
+/-- reference: the deck entry of the column's top cell, if that cell is in the box AND ACTIVE -/
+def topValueRef (D : Dims) (A : List Bool) (b : Box) (deck : Arr α) (li : Nat) : Option α :=
+  if isActive A li then
+    match boxSel D b li with
+    | some d => some (cellAt deck d).v
+    | none => none
+  else none
+
+/-- map with the running global index -/
+def mapFrom {β γ : Type} (f : Nat → β → γ) : Nat → List β → List γ
+  | _, [] => []
+  | s, x :: xs => f s x :: mapFrom f (s + 1) xs
+
+/-- the k/j/i loop of `distribute_toplayer` with its running active index -/
+def walkActive {β : Type} (f : Nat → β → β) : List Bool → Nat → List β → List β
+  | [], _, xs => xs
+  | false :: as, g, xs => walkActive f as (g + 1) xs
+  | true :: _, _, [] => []
+  | true :: as, g, x :: xs => f g x :: walkActive f as (g + 1) xs
+
+def topApply (m : Mode) (D : Dims) (A : List Bool) (b : Box) (deck : Arr α) (x : Arr α) : Arr α :=
+  match m with
+  | .ref => mapFrom (fun g c => topCell (topValueRef D A b deck (g % (D.nx * D.ny))) c) 0 x
+  | .impl => walkActive (fun g c => topCell (topValueImpl (indexList D A b) deck (g % (D.nx * D.ny))) c) A 0 x
+
+end Top
+
 /-! ## Stores (`int_data`, `double_data`) -/
 
 def sget {β : Type} : List (String × β) → String → Option β
@@ -717,6 +764,13 @@ def foldRecs {σ ρ : Type} (f : σ → ρ → Option σ) : σ → List ρ → O
 def siData (info : DInfo α) (vals : Arr α) : Arr α :=
   vals.map fun c => ⟨c.st, info.si c.v⟩
 
+/-- tail of `handle_double_keyword`: in the GRID section a `top` keyword that is still not
+fully defined after the assignment gets the values of the box's (active) top-layer cells copied
+down its columns -/
+def topStep (m : Mode) (D : Dims) (A : List Bool) (sec : Section) (info : DInfo α) (b : Box)
+    (deck y : Arr α) : Arr α :=
+  if sec = .grid ∧ info.top = true ∧ validArr m A y = false then topApply m D A b deck y else y
+
 /-- One keyword of a section: `scan*Section` dispatch + `handle_keyword`. -/
 def kwStep (m : Mode) (D : Dims) (T : Tables α) (sec : Section) (sb : St α × Box) (k : Kw α) :
     Option (St α × Box) :=
@@ -736,7 +790,8 @@ def kwStep (m : Mode) (D : Dims) (T : Tables α) (sec : Section) (sb : St α × 
       let p := getD m D s name info
       if vals.length ≠ b.size then none
       else
-        (boxApply m D p.1.act (assignKernel (siData info vals)) b p.2 p.2).map fun y => (putD p.1 name y, b)
+        (boxApply m D p.1.act (assignKernel (siData info vals)) b p.2 p.2).map fun y =>
+          (putD p.1 name (topStep m D p.1.act sec info b (siData info vals) y), b)
   | .dataI kw vals =>
     match sget T.int kw with
     | none => none
